@@ -2,6 +2,7 @@
 //! Every call into /repo code is wrapped in catch_unwind: a panic is an observation.
 mod heap_run;
 mod rng;
+mod srcsem;
 
 fn main() {
   std::panic::set_hook(Box::new(|_| {}));
@@ -13,6 +14,7 @@ fn main() {
   let rest = &args[2..];
   match args[1].as_str() {
     "heap-run" => heap_run::main(rest),
+    "src-run" => srcsem::main(rest),
     other => {
       eprintln!("unknown subcommand {other}");
       std::process::exit(2);
